@@ -219,7 +219,7 @@ impl Property for C08 {
     fn rule(&self) -> String {
         "tape -> program (cyclic graphs; tuples, arrays, compact, maps, generic arguments between types; several overlapping roots) -> registry \
          (random order) + settings with global, specific and recursive derive AND attribute registrations on registry paths (several recursive \
-         roots, overlapping reach), compact-as path on/off, bit-order types substituted; also Polkadot sub-registries. Oracle: per emitted item \
+         roots, overlapping reach), compact-as path on/off, insert_codec_attributes on/off, bit-order types substituted; also Polkadot sub-registries. Oracle: per emitted item \
          a lower bound (global + specific + for each recursive root the closure over the OUTPUT: the root item and every item mentioned in the \
          fields of an item of the closure) and an upper bound (recursive sets only where some entry of that path is reachable in the REGISTRY from \
          an entry of the root path); CompactAs required for a struct with exactly one plain unsigned field <= 128 bits when configured, forbidden \
@@ -256,6 +256,11 @@ impl Property for C08 {
             (r, case.gen.prog.to_text())
         };
         let mut spec = gen_settings(&mut t, &reg, &SettingsOpts::wire());
+        // derives and attributes do not depend on whether codec attributes are inserted
+        if t.chance(70) {
+            spec.codec = false;
+            stats.label("codec_attributes_off");
+        }
         // more registrations, many of them recursive, derives and attributes
         let paths = user_paths(&reg);
         if !paths.is_empty() {
